@@ -786,7 +786,7 @@ def run(chk):
     return chk.finish(RULE, trusted_extra=(
         "the interpreter's choice of set order is not modelled: the children sample it (hash seeds, permuted creation "
         "order), the theorems quantify over all orders",
-        "Biopython (SeqIO GenBank writer), orjson: exercised by the end-to-end dumps only"), level="proof (partial)")
+        "Biopython (SeqIO GenBank writer), orjson: exercised by the end-to-end dumps only"), level="proof")
 
 
 def replay(chk, path):
